@@ -2,6 +2,7 @@ use crate::engine::{Ctx, EvidenceMeta, Fail, Report};
 use serde_json::Value;
 
 pub mod c01;
+pub mod c02;
 pub mod c06;
 pub mod c07;
 pub mod c08;
@@ -26,6 +27,7 @@ pub struct PropDef {
 pub fn all() -> Vec<PropDef> {
     vec![
         PropDef { id: "C01", run: c01::run, replay: c01::replay },
+        PropDef { id: "C02", run: c02::run, replay: c02::replay },
         PropDef { id: "C06", run: c06::run, replay: c06::replay },
         PropDef { id: "C07", run: c07::run, replay: c07::replay },
         PropDef { id: "C08", run: c08::run, replay: c08::replay },
